@@ -118,7 +118,7 @@ def main():
     else:
         all_ids = sorted(re.match(r"benign_(\d+)\.diff", f).group(1) for f in os.listdir(VERIF + "/benign") if f.endswith(".diff"))
         for n in (ids or all_ids):
-            jobs.put(("benign_" + n, VERIF + "/benign/benign_%s.diff" % n, PROPS))
+            jobs.put(("benign_" + n, VERIF + "/benign/benign_%s.diff" % n, [p for p in PROPS if p in os.environ.get("PAR_PROPS", ",".join(PROPS)).split(",")]))
         out = VERIF + "/work/benign_matrix.txt"
     results, lock = {}, threading.Lock()
     ts = [threading.Thread(target=worker, args=(i, jobs, results, lock)) for i in range(min(NSLOTS, jobs.qsize()))]
@@ -142,7 +142,7 @@ def main():
                 # same line format as tools/mutant_matrix2.sh (read by gen_seeded_table.py)
                 f.write("%s == %s rc=%d %s  broken=%d  # %s\n" % (name, p, rc, v, nb, summary))
             else:
-                f.write("%s: %s\n" % (name, " ".join("%s=%s" % (p, r[p][0]) for p in PROPS)))
+                f.write("%s: %s\n" % (name, " ".join("%s=%s" % (p, r[p][0]) for p in PROPS if p in r)))
                 for p in PROPS:
                     if r[p][0] == "CONCRETE":
                         f.write("    %s CONCRETE: %s\n" % (p, r[p][2]))
